@@ -369,7 +369,7 @@ def r10_no_unsaved_memory(ctx, rule):
 def rules(tier):
     return [('C15.R1', r1_one_shot_key), ('C15.R2', r2_no_generated_unemitted), ('C15.R3', r3_pickle_layout),
             ('C15.R4', r4_omen_exit_writers), ('C15.R5', lambda c, r: c08.r5_sav_keys(c, r, sections=('guessing_info',), floor=3)),
-            ('C15.R6', r6_omen_call_sites), ('C15.R7', _model_immutable), ('C15.R8', r8_model_order), ('C15.R9', r9_session_file_names), ('C15.R10', r10_no_unsaved_memory)]
+            ('C15.R6', r6_omen_call_sites), ('C15.R7', _model_immutable), ('C15.R8', r8_model_order), ('C15.R9', r9_session_file_names), ('C15.R10', r10_no_unsaved_memory), ('C15.R11', c08.r20_position_verbatim)]
 
 
 META = {
